@@ -180,7 +180,43 @@ func emitAugmentOpts(id string, content []byte, files map[string]string, base st
 			plain = sexpGoroutines(s.Goroutines)
 		}
 	}()
-	emit("augment", id, hexs(content), fmtFS(files), frames, floats, snap, plain)
+	// the same with pointer pseudo-names on (the default of pp): only renderings that show a pointer may change
+	named := "1"
+	func() {
+		defer func() {
+			if e := recover(); e != nil {
+				named = "P"
+			}
+		}()
+		mk := func(names bool) *stack.Snapshot {
+			opts := &stack.Opts{LocalGOROOT: base + "/nogoroot", GuessPaths: true, AnalyzeSources: true, NameArguments: names}
+			if realGoroot {
+				opts.LocalGOROOT = runtime.GOROOT()
+			}
+			rd := &scriptedReader{rest: append([]byte{}, content...), final: finalOf("eof"), w: &recWriter{}}
+			s, _, _ := stack.ScanSnapshot(rd, rd.w, opts)
+			return s
+		}
+		a, b := mk(false), mk(true)
+		if a == nil || b == nil {
+			return
+		}
+		for gi := range a.Goroutines {
+			for ci := range a.Goroutines[gi].Stack.Calls {
+				pa, pb := a.Goroutines[gi].Stack.Calls[ci].Args.Processed, b.Goroutines[gi].Stack.Calls[ci].Args.Processed
+				if len(pa) != len(pb) {
+					named = "0"
+					continue
+				}
+				for k := range pa {
+					if pa[k] != pb[k] && !strings.Contains(pa[k], "0x") {
+						named = "0" // a value that shows no pointer was replaced
+					}
+				}
+			}
+		}
+	}()
+	emit("augment", id, hexs(content), fmtFS(files), frames, floats, snap, plain, named)
 }
 
 func init() {
